@@ -366,6 +366,24 @@ impl Interp {
                 return self.compare_module(&what);
             }
         }
+        // `type_opaque` is hand-written and takes no explicit id: the statement's dedup clause is
+        // quantified over the generated type methods and type_pointer, so whether this method reuses
+        // an identical earlier OpTypeOpaque (adding nothing) or declares a fresh one is left open
+        if mm.mi.name == "type_opaque" {
+            if let Some(r) = out.id {
+                let reused = self
+                    .model
+                    .types_global_values
+                    .iter()
+                    .any(|i| i.class.opcode == exp.class.opcode && i.operands == exp.operands && i.result_id == Some(r));
+                if reused {
+                    return self.compare_module(&what).map_err(|mut f| {
+                        f.clause = "type-dedup-changed-module".into();
+                        f
+                    });
+                }
+            }
+        }
         // fresh id discipline for implicit results
         if has_rid && explicit_id.is_none() {
             if let Some(r) = out.id {
